@@ -27,6 +27,11 @@ TABLE = {
             'continuation or clear(); handleStanza is explored for "from non-empty and bare(from) != own bare": parse, acknowledgement and mutations unreachable, returns false; '
             'remove/insert are control-dependent on the item subscription type inside one loop under case Set; new (non-resumed) sessions clear before any use; presence table writers and their cases are fixed.',
             'History-level equality of the view with "last roster + pushes in order" is not decided (reachability over states, not code shape).', 'DESIGN.md §2 C12'),
+    'C16': ('control dependence of every identity write + abstract evaluation of the server-side stanza handler for unauthenticated / spoofing senders + closed writer/caller sets of the routing tables',
+            'Static: every assignment to the per-connection jid must be control-dependent on respond()==Succeeded or the password reply being NoError and be built from '
+            'saslServer->username() and the domain; handleStanza is explored with "jid empty": bind, session reply, connected and routing are unreachable; with a foreign from: '
+            'routing unreachable; empty from: stamped from the authenticated jid on every routed path; the password-reply handler is explored per checker verdict.',
+            'Behaviour over all client scripts on real sockets and third-party server extensions is not decided; the password checker is trusted.', 'DESIGN.md §2 C16'),
 }
 
 NOT_APPLICABLE_REASON = 'check not built yet in this session (see DESIGN.md); listed here until qxverif/rules/<id>.py exists'
